@@ -51,7 +51,7 @@ EPS = 1e-9
 CONT_TOL = 1e-6
 
 # ------------------------------------------------------------------------------------------------ spaces
-GOODMAN = [("goodman", 0.0, 0.0), ("goodman", 0.3, 0.1), ("goodman", 0.5, 0.5 / 3.0), ("goodman", 0.3, 0.3)]
+GOODMAN = [("goodman", 0.0, 0.0), ("goodman", 0.3, 0.1), ("goodman", 0.5, 0.5 / 3.0), ("goodman", 0.3, 0.3), ("goodman", 0.3, 0.0)]   # last: explicit M2 = 0 with M > 0
 FIVE_M = [(0.5, 0.3, 0.2, 0.1, 0.0), (0.4, 0.4, 0.2, 0.2, 0.1), (0.3, 0.1, 0.1, 0.05, 0.2), (0.45, 0.15, 0.3, 0.0, 0.05)]
 
 SPACE = {
@@ -164,7 +164,8 @@ def shards(tier):
     ds = _diagrams(tier)
     out = []
     for i, d in enumerate(ds):
-        other = ds[(i + 1) % 4] if d[0] == "goodman" else ds[4 + (i - 4 + 1) % (len(ds) - 4)]
+        ng = len(GOODMAN)
+        other = ds[(i + 1) % ng] if d[0] == "goodman" else ds[ng + (i - ng + 1) % (len(ds) - ng)]
         for R in sp["R"]:
             out.append(("direct", tier, d, R, other))
     for d in ds:
